@@ -61,6 +61,10 @@ def c14OpRet (args : List String) (impl : String) : String × String :=
           if impl.contains "PANIC" || impl.startsWith "panic" then "false:panic"
           else if fieldD f "type" != "nulldata" || fieldD f "data" != "1" || fieldD f "has" != "1" then "false:data-template-misclassified"
           else if !tmplData s then "false:model-script-not-template"
+          -- C14.opreturn_output_parts on the implementation's own answer: non-empty items come back after OP_FALSE OP_RETURN
+          else if parts.all (fun p => !p.isEmpty) && fieldD f "dec" != ",".intercalate ("00" :: "6a" :: parts.map hexE0) then "false:items-not-recoverable"
+          else if fieldD f "script" != fieldD f "parts" || fieldD f "script" != fieldD f "strs" ||
+                  (fieldD f "single" != "n/a" && fieldD f "single" != fieldD f "script") then "false:entry-points-disagree"
           else "true"
         (model, pred)
   | _ => ("bad-op", "n/a")
